@@ -977,10 +977,11 @@ class Interp:
             if isinstance(t, ast.Subscript):
                 obj = self.eval(t.value, env)
                 key = self.eval(t.slice, env)
-                if isinstance(obj, dict) and not is_sym(key):
-                    if key not in obj:
+                if isinstance(obj, dict):
+                    k = self.B._dict_lookup(self, obj, key)
+                    if k is self.B._MISSING:
                         self.raise_builtin("KeyError", key)
-                    del obj[key]
+                    del obj[k]
                 elif isinstance(obj, list) and isinstance(key, int):
                     del obj[key]
                 else:
@@ -1504,6 +1505,8 @@ class Interp:
             return item in container
         if isinstance(container, Opaque):
             return truthy(self.opaque_method(container, "__contains__", [item], {}))
+        if isinstance(container, VObj) and self.reg.nominal_methods.get(container.cls.qualname, {}).get("__contains__"):
+            return truthy(self.call(self.getattr(container, "__contains__"), [item], {}))
         if isinstance(container, VObj) and container.cls.find_method("__contains__"):
             return truthy(self.call(self.getattr(container, "__contains__"), [item], {}))
         raise OutOfSubset(f"`in` on {container!r}")
@@ -1624,9 +1627,7 @@ class Interp:
 
         def add(e):
             k = self.eval(n.key, e)
-            if is_sym(k):
-                raise OutOfSubset("dict comprehension with symbolic key")
-            out[k] = self.eval(n.value, e)
+            self.store_subscript(out, k, self.eval(n.value, e))
 
         self.comp(n.generators, 0, Env(parent=env, module=env.module), add)
         return out
